@@ -180,6 +180,8 @@ def call_builtin(eng, p, args, kwargs, fr, node):
             return SV("V", eng.materialize(x, fr), meta={"seq": True})
         if x.k == "sdict":
             return mk_tuple([mk_str(k) for k in x.t], is_list=(name == "list"))
+        if x.k == "py":
+            x = mk_V(eng.as_V(x))
         if x.k == "V":
             coll = (x.meta or {}).get("coll")
             if coll in ("map", "set"):
